@@ -220,6 +220,49 @@ pub fn run(ctx: &Ctx) -> CheckResult {
         res.absorb(merge_jobs(outs));
     }
 
+    // medium periods on tick-grid walks (ties, plateaus, a new extreme exactly when a tied one leaves)
+    if !res.out.failed() {
+        let mut tw: Vec<(Cfg, bool)> = vec![];
+        for n in (6..=40usize).filter(|n| th || n % 4 == 2 || *n == 9 || *n == 20) {
+            for k in [Kind::Sd, Kind::Mad, Kind::Sma, Kind::Wma, Kind::Ema, Kind::Min, Kind::Atr] {
+                tw.push((Cfg::p1(k, n), false));
+            }
+            tw.push((Cfg::pm(Kind::Bb, n, 2.0), false));
+            tw.push((Cfg::pm(Kind::Kc, n, 2.0), true));
+            tw.push((Cfg::pm(Kind::Ce, n, 3.0), true));
+            tw.push((Cfg::p1(Kind::Atr, n), true));
+            tw.push((Cfg::p3(Kind::Macd, n, 2 * n + 1, 9), false));
+        }
+        let len = if th { 2000 } else { 600 };
+        let outs = par_run(ctx, &tw, |_, (cfg, bars)| {
+            let mut out = JobOut::default();
+            let walk = super::refcmp::tick_walk(len, ctx.seed ^ 0x9, *bars, *bars, true);
+            let r = std::panic::catch_unwind(std::panic::AssertUnwindSafe(|| {
+                let mut s = make(cfg);
+                walk.iter().map(|op| s.apply(op)).collect::<Vec<Out>>()
+            }));
+            out.stats.traces += 1;
+            out.stats.transitions += len as u64;
+            match r {
+                Ok(outs) => {
+                    for t in 0..len {
+                        if matches!(walk[t], Op::Reset) {
+                            continue;
+                        }
+                        out.stats.states += 1;
+                        node(cfg, &walk[..=t], &outs[t], &mut out);
+                        if out.failed() {
+                            return out;
+                        }
+                    }
+                }
+                Err(_) => out.fail(Violation::new(PROP, cfg, &walk[..], "panic").obs("panic".into()).exp("outputs".into())),
+            }
+            out
+        });
+        res.absorb(merge_jobs(outs));
+    }
+
     // flat stretches after large values (cancellation could drive a variance negative)
     if !res.out.failed() {
         let set = [Regime::Extremes, Regime::Flat, Regime::Spikes, Regime::Osc, Regime::Tick];
@@ -314,6 +357,6 @@ pub fn run(ctx: &Ctx) -> CheckResult {
         res.absorb(merge_jobs(outs));
     }
     res.rule = "case = (configuration, history); invariants evaluated on the real output in every state: SD/MAD >= 0 and not NaN, TR/ATR >= 0, Minimum <= Maximum (paired run), lower <= average <= upper (BB, KC; multiplier >= 0), CE inside the reference window extremes, histogram = line - signal (MACD, PPO), SMA/WMA inside the window hull, EMA inside the history hull (last groups up to tau(t)*M); non-trivial = history longer than the window".into();
-    res.bounds = format!("seq(S_int+reset,{d}), seq(S_rough,{dr}) and seq(S_tiny+reset) scalar, seq(B_grid+reset,{db}) bars (ChandelierExit / KeltnerChannel also on the grid shifted to negative prices), periods 1..5, multipliers {{0,0.5,2,1e6}}; streams mixing scalars and bars on one instance; EMA periods that are multiples of 2^32; the same histories to depth 4/5 with a serde round trip / clone before the last operation; seq(S_signed_max = {{-1e308, 1e308, f64::MAX, f64::MIN, 1, 0}}+reset, 5/7) last (listed findings K6-K11 there); all 5^3 orderings of {{extremes, flat, spikes, osc, tick}} segments at scales 1e-3, 1, 1e9");
+    res.bounds = format!("seq(S_int+reset,{d}), seq(S_rough,{dr}) and seq(S_tiny+reset) scalar, seq(B_grid+reset,{db}) bars (ChandelierExit / KeltnerChannel also on the grid shifted to negative prices), periods 1..5, multipliers {{0,0.5,2,1e6}}; streams mixing scalars and bars on one instance; EMA periods that are multiples of 2^32; the same histories to depth 4/5 with a serde round trip / clone before the last operation; seq(S_signed_max = {{-1e308, 1e308, f64::MAX, f64::MIN, 1, 0}}+reset, 5/7) last (listed findings K6-K11 there); tick-grid walks of 600 / 2000 steps for periods 6..40; all 5^3 orderings of {{extremes, flat, spikes, osc, tick}} segments at scales 1e-3, 1, 1e9");
     res
 }
